@@ -78,7 +78,9 @@ func init() {
 		// reads on a deposed leader that still hears from non-voting members
 		runner.Part{Scenario: "simhost", Params: p("hosts", "4", "voters", "3", "pmember", "15", "memberbias", "1", "checkquorum", "0", "ppartition", "12", "groupsplit", "60", "pheal", "5", "readmix", "60", "pcrash", "0", "pdrop", "0", "quiesce", "0"), Share: 2},
 		// deposed leaders that still receive (delayed) confirmations of older rounds
-		runner.Part{Scenario: "simhost", Params: p("hosts", "3", "checkquorum", "0", "holdcut", "1", "ppartition", "15", "groupsplit", "30", "pheal", "8", "readmix", "75", "pcrash", "0", "pdrop", "0", "pdup", "0", "preorder", "40", "pmember", "0", "quiesce", "0", "clients", "4", "keys", "1"), Share: 2})
+		runner.Part{Scenario: "simhost", Params: p("hosts", "3", "checkquorum", "0", "holdcut", "1", "ppartition", "15", "groupsplit", "30", "pheal", "8", "readmix", "75", "pcrash", "0", "pdrop", "0", "pdup", "0", "preorder", "40", "pmember", "0", "quiesce", "0", "clients", "4", "keys", "1"), Share: 2},
+		// the requesting side: reads issued on followers that lag behind a compacted log and are caught up by a snapshot while the read waits
+		runner.Part{Scenario: "simhost", Params: p("hosts", "3", "snapshot", "5", "overhead", "0", "ppartition", "15", "pheal", "12", "readmix", "70", "clients", "5", "ops", "40", "pcrash", "4", "prestart", "80", "smyield", "300", "pdup", "0", "timeout", "300"), Share: 2})
 	// (the C06 parts above; one more: deposed leaders that still receive delayed confirmations)
 	sh("C07", 90, 1200, runner.Part{Scenario: "simhost", Params: p("pmember", "20", "hosts", "4"), Share: 2},
 		runner.Part{Scenario: "simhost", Params: p("pmember", "12", "hosts", "5", "pcrash", "6"), Share: 1},
